@@ -1029,7 +1029,7 @@ class Parsent(object):
                     bodyParser.close()
                     break
                 (yield None)
-        except HTTPException as ex:
+        except (HTTPException, ValueError) as ex:  # invalid message from peer
             self.errored = True
             self.error = str(ex)
 
